@@ -140,6 +140,12 @@ def _give_env(objs, ns, depth=0, seen=None):
 
 def resolve_function(target):
     modname, qual = target.split(":")
+    for pre in ("frequenz.sdk.microgrid", "frequenz.sdk.timeseries"):
+        # the package has import cycles that only resolve when entered through its public packages
+        try:
+            importlib.import_module(pre)
+        except Exception:  # pylint: disable=broad-except
+            pass
     mod = importlib.import_module(modname)
     obj = mod
     for part in qual.split("."):
